@@ -422,7 +422,7 @@ class SaveCtx(JobCtx):
 
 class SPRekey(FSContract):
     target = f"{JOB}._StatePointDict._save"
-    properties = ("C03", "C04", "C11")
+    properties = ("C03", "C04", "C05", "C11")
     ctx_class = SaveCtx
     shard_bits = 4
     inline = GETTERS + (f"{JOB}.Job._initialize_lazy_properties",)
@@ -484,7 +484,8 @@ class SPRekey(FSContract):
             if not post:
                 # a live handle may hold a document handle / stores bound to the OLD directory: they must be dropped
                 if ex.decide(None, f"pre:{tag}._document set"):
-                    o.fields["_document"] = "doc-handle-of-old-id"
+                    from .jobfs import SDoc
+                    o.fields["_document"] = SDoc(LIn(p, old, Name.DOC), True)
                     o.fields["_stores"] = "stores-of-old-id"
             return o
 
